@@ -227,3 +227,53 @@ func ruleEpochCacheShapes(c *eng.Ctx) {
 		c.Check(ok && okEmpty, x.name+" reads the "+which+" entry", p.Pos(fn.Pos()), "epochOffsets["+map[bool]string{true: "len-1", false: "0"}[x.last]+"]."+x.field+", a constant only when the list is empty", x.name+" does not read the "+which+" entry of the epoch list (or answers the empty-list constant for a non-empty list)")
 	}
 }
+
+// ruleISRPersisted (R07.9, shared with C02 and C06): the in-sync set lives twice — the map the leader commits over and the
+// protobuf list that snapshots and pause/resume persist. Every mutation rebuilds the list from the map AFTER the map was
+// changed; a list built before the change persists the old set (a lagging replica is back in the ISR after a restore and
+// can be elected).
+func ruleISRPersisted(c *eng.Ctx) {
+	p := c.P
+	isrF := p.Field("server", "partition", "isr")
+	for _, k := range []string{"RemoveFromISR", "AddToISR"} {
+		fn := c.Fn("server.(*partition)." + k)
+		if fn == nil {
+			continue
+		}
+		var ranges, muts []ssa.Instruction
+		eng.Instrs(fn, func(in ssa.Instruction) {
+			switch x := in.(type) {
+			case *ssa.Range:
+				if eng.Load(isrF, nil)(x.X) {
+					ranges = append(ranges, in)
+				}
+			case *ssa.MapUpdate:
+				if eng.Load(isrF, nil)(x.Map) {
+					muts = append(muts, in)
+				}
+			case *ssa.Call:
+				if b, ok := x.Call.Value.(*ssa.Builtin); ok && b.Name() == "delete" && eng.Load(isrF, nil)(x.Call.Args[0]) {
+					muts = append(muts, in)
+				}
+			}
+		})
+		ok := len(ranges) == 1 && len(muts) == 1
+		var w *eng.Witness
+		if ok {
+			var g bool
+			g, w = eng.PrecededBy(fn, ranges[0], func(x ssa.Instruction) bool { return x == muts[0] })
+			q := &eng.PathQuery{Fn: fn, FromAfter: []ssa.Instruction{ranges[0]}, Target: func(x ssa.Instruction) bool { return x == muts[0] }}
+			ok = g && q.Find() == nil
+		}
+		// the list that is rebuilt is the protobuf one
+		stored := false
+		eng.Instrs(fn, func(in ssa.Instruction) {
+			if st, isSt := in.(*ssa.Store); isSt {
+				if fa, isFA := st.Addr.(*ssa.FieldAddr); isFA && eng.FieldNameOf(fa) == "Isr" {
+					stored = true
+				}
+			}
+		})
+		c.Check(ok && stored, k+" persists the in-sync set as it is after the change", p.Pos(fn.Pos()), "p.Isr is rebuilt from p.isr after the map was updated", k+" rebuilds the persisted ISR list before (or without) changing the in-memory set (path "+w.String()+"): snapshots and pause/resume bring back the old in-sync set, so a replica that was removed for lagging is electable again after a restore")
+	}
+}
